@@ -8,6 +8,7 @@
 #include <cstdlib>
 #include <cstring>
 #include <string>
+#include <functional>
 #include <vector>
 #include <map>
 #include <set>
@@ -206,6 +207,7 @@ static void run_segment(int tid, Shared *sh, size_t lo, size_t hi, bool do_init,
         case IS_EMAIL: {
             if (confirmed < 0) { out.push_back("IS skipped"); break; }
             rt::enter_sut(); int r = eav_is_email(e, s, n); const char *m = eav_errstr(e); rt::leave_sut();
+            if (op.mf) out.push_back("AF " + rt::alloc_fault_signature());
             snprintf(b, sizeof b, "IS mode=%d ret=%d ec=%d ", confirmed, r, e->errcode);
             out.push_back(string(b) + res_str(e->result) + " msg=" + (m ? m : "(null)"));
         } break;
@@ -260,6 +262,7 @@ static void run_segment(int tid, Shared *sh, size_t lo, size_t hi, bool do_init,
             switch ((int)op.v & 3) { case 0: r = is_822_email(s, n, tld); break; case 1: r = is_5321_email(s, n, tld); break; case 2: r = is_5322_email(s, n, tld); break; default: r = is_6531_email(s, n, tld); }
 #endif
             rt::leave_sut();
+            if (op.mf) out.push_back("AF " + rt::alloc_fault_signature());
             string rs = res_str(r);
             rt::enter_sut(); eav_result_free(r); rt::leave_sut();
             snprintf(b, sizeof b, "EMAIL m=%d tld=%d ", (int)op.v & 3, (int)tld); out.push_back(string(b) + rs);
@@ -294,13 +297,13 @@ static void pre_entry(int tid, void *arg) { Shared *sh = (Shared *)arg; run_segm
 static void post_entry(int tid, void *arg) { Shared *sh = (Shared *)arg; run_segment(tid, sh, sh->b[tid], sh->prog[tid].size(), false, true, false, true); }
 // the library aborted / asserted inside a call of this thread: that is the outcome of the call (what matters is whether
 // the same happens when the thread runs alone)
-static void on_abort(int tid, void *arg) { Shared *sh = (Shared *)arg; int prog = sh->in_concurrent ? sh->cur_prog[tid] : tid; if (prog < 0) prog = tid; sh->out[prog].push_back("ABORTED inside the library"); sh->stopped[prog] = 1; rt::arm_alloc_fault(0); }
+static void on_abort(int tid, void *arg) { Shared *sh = (Shared *)arg; int prog = sh->in_concurrent ? sh->cur_prog[tid] : tid; if (prog < 0) prog = tid; if (rt::alloc_fault_armed()) sh->out[prog].push_back("AF " + rt::alloc_fault_signature()); sh->out[prog].push_back("ABORTED inside the library"); sh->stopped[prog] = 1; rt::arm_alloc_fault(0); }
 
 // ------------------------------------------------------------------ execution of one plan
 struct Viol { string cls, detail; };
 struct Stats {
     uint64_t plans = 0, steps = 0, events = 0, ctx_switches = 0, seq_steps = 0, ops = 0, lib_calls = 0, threads_hist[rt::MAXT + 1] = { 0 }, policy_hist[5] = { 0 };
-    uint64_t exit_plans = 0, exit_handlers_run = 0, relay_plans = 0, relay_handovers = 0, handoff_plans = 0, calls_by_main_before_start = 0, calls_by_main_after_join = 0, alloc_faults_attached = 0, aborted_calls = 0, spin_yields = 0, inconclusive_shadow_overflow = 0, write_shared = 0, sync_ops = 0, atomic_ops = 0, pseudo_writes = 0, outcome_cmp = 0, globals_dirty_after_seq = 0, races_seen = 0;
+    uint64_t alloc_fault_not_comparable = 0, exit_plans = 0, exit_handlers_run = 0, relay_plans = 0, relay_handovers = 0, handoff_plans = 0, calls_by_main_before_start = 0, calls_by_main_after_join = 0, alloc_faults_attached = 0, aborted_calls = 0, spin_yields = 0, inconclusive_shadow_overflow = 0, write_shared = 0, sync_ops = 0, atomic_ops = 0, pseudo_writes = 0, outcome_cmp = 0, globals_dirty_after_seq = 0, races_seen = 0;
     std::set<uint64_t> interleavings, plan_hashes, nontrivial;
     uint64_t kind[NKINDS] = { 0 };
 };
@@ -334,7 +337,10 @@ static void run_plan(const Plan &p, bool want_log, RunOut &ro, bool count = true
     vector<vector<string>> seq(p.nthreads);
     uint64_t seq_steps = 0; bool dirty = false;
     new_objs();
-    for (int t = 0; t < p.nthreads; t++) {
+    // every reference run and the concurrent phase are processes of their own: the work of "the main thread" is done on a
+    // fresh OS thread each time, so that thread-local state of the library starts empty like its statics do
+    auto fresh = [](std::function<void()> f) { rt::on_fresh_thread([](void *q) { (*(std::function<void()> *)q)(); }, &f); };
+    for (int t = 0; t < p.nthreads; t++) fresh([&]() {
         rt::reset_library_globals();
         sh.out.assign(p.nthreads, vector<string>()); sh.fresh_state();
         rt::begin_sequential();
@@ -342,23 +348,23 @@ static void run_plan(const Plan &p, bool want_log, RunOut &ro, bool count = true
         seq_steps += rt::end_sequential();
         if (rt::library_globals_dirty()) dirty = true;
         seq[t] = sh.out[t];
-    }
+    });
     // ---- concurrent phase, from pristine library statics
+    rt::Result res; rt::Config cfg; uint64_t handoff_steps = 0;
+    fresh([&]() {
     rt::reset_library_globals();
     new_objs();
     sh.out.assign(p.nthreads, vector<string>()); sh.fresh_state();
     // object handoff, first half: the main thread initialises some objects and makes the leading calls of their programs;
     // thread creation orders all of that before everything the threads do
-    uint64_t handoff_steps = 0;
     if (handoff) {
         rt::begin_sequential();
         for (int t = 0; t < p.nthreads; t++) if (sh.init_by_main[t]) rt::run_sequential(pre_entry, t, &sh);
         handoff_steps += rt::end_sequential();
     }
-    rt::Config cfg; cfg.nthreads = p.nthreads; cfg.keep_sync_state = handoff; cfg.policy = p.has_switches ? 0 : p.policy; cfg.den = p.den; cfg.quantum = p.quantum; cfg.pct_depth = p.depth;
+    cfg.nthreads = p.nthreads; cfg.keep_sync_state = handoff; cfg.policy = p.has_switches ? 0 : p.policy; cfg.den = p.den; cfg.quantum = p.quantum; cfg.pct_depth = p.depth;
     cfg.pct_est_steps = seq_steps ? seq_steps : 1; cfg.sched_seed = p.sched_seed; cfg.replay = p.switches;
     cfg.step_budget = 20 * seq_steps + 2000;
-    rt::Result res;
     sh.in_concurrent = true;
     rt::run_concurrent(cfg, thread_entry, &sh, res);
     sh.in_concurrent = false;
@@ -369,6 +375,7 @@ static void run_plan(const Plan &p, bool want_log, RunOut &ro, bool count = true
         for (int t = 0; t < p.nthreads; t++) if (sh.free_by_main[t]) rt::run_sequential(post_entry, t, &sh);
         handoff_steps += rt::end_sequential();
     }
+    });
     char b[200];
     snprintf(b, sizeof b, "RUN steps=%llu events=%llu switches=%llu seq_steps=%llu ih=%016llx", (unsigned long long)res.steps, (unsigned long long)res.events, (unsigned long long)res.ctx_switches, (unsigned long long)seq_steps, (unsigned long long)res.interleaving_hash);
     rec(b);
@@ -399,6 +406,9 @@ static void run_plan(const Plan &p, bool want_log, RunOut &ro, bool count = true
             ST.outcome_cmp++;
             const vector<string> &a = seq[t], &c = sh.out[t];
             size_t i = 0; while (i < a.size() && i < c.size() && a[i] == c[i]) i++;
+            // an attached allocation failure met different allocations in the two executions (a record served from a
+            // per-thread cache needs none): from here on the two logs are not comparable
+            if (i < a.size() && i < c.size() && a[i].compare(0, 3, "AF ") == 0 && c[i].compare(0, 3, "AF ") == 0) { ST.alloc_fault_not_comparable++; continue; }
             if (i < a.size() || i < c.size()) {
                 viol("C14:outcome-differs-from-sequential", "thread " + std::to_string(t) + " call #" + std::to_string(i) + ": alone {" + (i < a.size() ? a[i] : string("(end)")) + "} concurrently {" + (i < c.size() ? c[i] : string("(end)")) + "}");
                 break;
@@ -632,7 +642,7 @@ static sj::Value stats_json() {
     j.set("library_constructors", (long long)rt::library_constructors()); j.set("library_exit_handlers_now", (long long)rt::library_exit_handlers());
     j.set("relay_plans", ST.relay_plans); j.set("objects_handed_between_live_workers", ST.relay_handovers);
     j.set("handoff_plans", ST.handoff_plans); j.set("calls_by_main_before_start", ST.calls_by_main_before_start); j.set("calls_by_main_after_join", ST.calls_by_main_after_join);
-    j.set("alloc_faults_attached", ST.alloc_faults_attached); j.set("calls_aborted_inside_library", ST.aborted_calls);
+    j.set("alloc_faults_attached", ST.alloc_faults_attached); j.set("programs_not_comparable_after_alloc_fault", ST.alloc_fault_not_comparable); j.set("calls_aborted_inside_library", ST.aborted_calls);
     j.set("sync_ops", ST.sync_ops); j.set("atomic_ops", ST.atomic_ops); j.set("spin_yields", ST.spin_yields); j.set("hidden_state_libc_calls", ST.pseudo_writes);
     j.set("plans_where_library_statics_changed", ST.globals_dirty_after_seq); j.set("racing_pairs_seen", ST.races_seen);
     j.set("library_writable_static_bytes", (long long)rt::library_writable_bytes());
